@@ -46,5 +46,9 @@ func (t *TimedTransaction) Fail(e error) {
 }
 
 func (t *TimedTransaction) stopTimer() {
-	t.timer.Stop()
+	// The timer can fire (and call Fail) before NewTimedTransaction has
+	// stored it in t.timer.
+	if t.timer != nil {
+		t.timer.Stop()
+	}
 }
